@@ -452,6 +452,41 @@ def sequence_task(t, res, upto=None):
             return
 
 
+# ------------------------------------------------------------------ arguments the caller goes on using
+def alias_task(t, res):
+    """start_coord handed over as an array that the caller overwrites afterwards (one scratch buffer for a batch of calls): the
+    maze and its metadata must keep describing the call as it was made"""
+    which = t["which"]
+    oracle = oracle_c01 if which == "C01" else oracle_c12
+    for gen, kw0, rand in (("gen_dfs", {}, "default"), ("gen_dfs", dict(accessible_cells=3), "default"), ("gen_prim", {}, "default"),
+                           ("gen_percolation", dict(p=0.4), "tiny"), ("gen_dfs_percolation", dict(p=0.4, accessible_cells=2), "tiny")):
+        choice.RAND_FAMILY[0] = RAND_POLICIES[rand]
+        for shape in ((2, 3), (3, 3)):
+            cells = R.cells(*shape)
+            for cell in cells:
+                res.ev()
+                buf = np.array(cell)
+                kw = dict(kw0, start_coord=buf)
+                with owned_rng():
+                    ex = explore.run_with([], lambda: _call(gen, shape, kw))
+                if ex.exc is not None:
+                    continue
+                m = ex.out
+                before = repr(m.generation_meta.get("start_coord")) if m.generation_meta else None
+                buf[:] = cells[-1] if tuple(cell) != cells[-1] else cells[0]   # the caller re-uses its buffer
+                after = repr(m.generation_meta.get("start_coord")) if m.generation_meta else None
+                kwt = dict(kw0, start_coord=tuple(cell))
+                keyp = f"{which}|{gen}|{shape[0]}x{shape[1]}|start_coord_array_reused_by_caller"
+                rd = dict(kind="alias", which=which)
+                if before != after:
+                    res.fail(f"{keyp}|metadata_moved", f"{gen}{shape} {kwt}: generation_meta['start_coord'] was {before} and reads {after} after the caller overwrote the "
+                             f"array it had passed as start_coord", rd)
+                    continue
+                for suffix, msg in oracle(gen, shape, kwt, m):
+                    res.fail(f"{keyp}|{suffix}", f"{gen}{shape} {kwt} (start_coord passed as an array, overwritten afterwards): {msg}", rd)
+                res.nontrivial(("alias", gen, shape, tuple(cell)))
+
+
 def _timing(task, res, t_start):
     res.add("timing", (round(time.time() - t_start, 1), task["gen"], tuple(task["shape"]), task["mode"], len(task["kws"]),
                        task.get("rand", ""), res.counters.get("capped_tasks", 0)))
@@ -463,6 +498,9 @@ def _timing_and_unowned(task, res, t_start, unowned0):
 
 
 def replay_case(d, res, which):
+    if d.get("kind") == "alias":
+        alias_task(dict(which=d["which"]), res)
+        return
     if d.get("kind") == "sequence":
         sequence_task(d["task"], res)
         return
